@@ -309,6 +309,24 @@ class NPProxy:
             return out
         return _np.ceil(a)
 
+    def isclose(self, a, b, rtol=1e-05, atol=1e-08, equal_nan=False):
+        """numpy's definition |a - b| <= atol + rtol * |b| (finite values), decided by the solver for symbolic entries"""
+        if not (self._has_sym(a) or self._has_sym(b)):
+            return _np.isclose(a, b, rtol=rtol, atol=atol, equal_nan=equal_nan)
+        aa, bb = _np.broadcast_arrays(_np.asarray(a, dtype=object), _np.asarray(b, dtype=object))
+        out = _np.empty(aa.shape, dtype=bool)
+        fo = out.reshape(-1) if out.ndim else None
+        for k, (x, y) in enumerate(zip(aa.reshape(-1), bb.reshape(-1))):
+            r = bool(abs(x - y) <= atol + rtol * abs(y))          # forks when the solver allows both
+            if fo is None:
+                return r
+            fo[k] = r
+        return out
+
+    def allclose(self, a, b, rtol=1e-05, atol=1e-08, equal_nan=False):
+        r = self.isclose(a, b, rtol=rtol, atol=atol, equal_nan=equal_nan)
+        return bool(_np.all(r))
+
     def where(self, cond, *a):
         if isinstance(cond, _np.ndarray) and cond.dtype == object:
             cond = _concretize(cond)
